@@ -105,6 +105,8 @@ def ties_world(rng, n, style=None):
 		sig |= set(range(B + i * 8, B + i * 8 + b))
 		if not sig:
 			sig = {B + i * 8}
+		if i == 0 and style != 'near-ties' and n >= 2:
+			sig = set(range(0, m))                 # identical to query 0: distance exactly 0
 		W.add_genome(w, rng, i, rng.randrange(len(w.taxa)), sig, names_pool=['plain'])
 	for j in range(nq):
 		w.queries.append(dict(label=f'q{j}', sig=list(range(j * m, (j + 1) * m)), contigs=None))
@@ -113,6 +115,10 @@ def ties_world(rng, n, style=None):
 		w.extra.append(dict(id=f'unrelated/{e}', int_id=900000 + e, sig=sorted(rng.sample(range(B + n * 8 + 50), rng.randint(0, 10)))))
 	w.finalize()
 	W.assign_thresholds(rng, w)
+	if style != 'near-ties' and n >= 2 and rng.random() < 0.6:
+		# the diameter of a single-genome species: a threshold of exactly 0 covers a distance of exactly 0 and nothing else
+		w.taxa[w.genomes[0]['taxon']].thr = 0.0
+		w.zero_threshold = True
 	return w
 
 
@@ -175,6 +181,8 @@ def run_api(sh, ctx):
 		d = w.write_db(ctx.workdir / f'w{wi}', sig_order=order, interleave_seed=wi)
 		if w.extra:
 			ctx.count('databases_with_unlisted_signatures_in_between')
+		if getattr(w, 'zero_threshold', False):
+			ctx.count('worlds_with_zero_threshold_and_zero_distance')
 		db = ReferenceDatabase.load_from_dir(d)
 		try:
 			qs = [np.array(q['sig'], dtype=w.dtype) for q in w.queries]
@@ -260,7 +268,7 @@ def run_shard(sh, ctx):
 
 def finalize(merged, tier, seed, inconclusive):
 	c = merged['counters']
-	for n in ['strict_mode_queries', 'rows_with_ties', 'rows_with_tied_minimum', 'n_regime:<=16', 'n_regime:17-64', 'n_regime:>64', 'csv_json_pairs', 'rows_with_near_ties', 'databases_with_unlisted_signatures_in_between']:
+	for n in ['strict_mode_queries', 'rows_with_ties', 'rows_with_tied_minimum', 'n_regime:<=16', 'n_regime:17-64', 'n_regime:>64', 'csv_json_pairs', 'rows_with_near_ties', 'databases_with_unlisted_signatures_in_between', 'worlds_with_zero_threshold_and_zero_distance']:
 		if c.get(n, 0) == 0:
 			inconclusive.append(f'class never observed: {n}')
 	dg = merged['notes'].get('digest_lists', {})
